@@ -23,6 +23,10 @@ struct Arena {
     Arena() {
         for (int i = 0; i < NSMALL; i++) slots.push_back(mk(SMALL_PAGES, false));
     }
+    ~Arena() {   // task threads come and go: give the mappings back (vm.max_map_count is finite)
+        for (auto &s : slots) { ARENA_UNPOISON(s.map + PAGE, s.pages * PAGE); munmap(s.map, (s.pages + 2) * PAGE); }
+    }
+    Arena(const Arena &) = delete;
     static Slot mk(size_t pages, bool big) {
         size_t len = (pages + 2) * PAGE;
         u8 *m = (u8 *) mmap(nullptr, len, PROT_READ | PROT_WRITE, MAP_PRIVATE | MAP_ANONYMOUS, -1, 0);
